@@ -428,6 +428,12 @@ func runC11(c *evid.Ctx) {
 		if i < 2 {
 			c.Sample(map[string]any{"operator": opName, "target": target, "outcome": out.class, "vfs_calls": out.calls, "allocated": out.alloc})
 		}
+		// hangs and multi-GiB allocations cost tens of seconds each: once the run has seen many
+		// occurrences the verdict is settled, the remaining cases would only take hours
+		if c.ViolationOccurrences() > 60 {
+			c.Count("cases_skipped_after_many_violations", int64(n-i-1))
+			break
+		}
 	}
 	c.Extra("max_vfs_calls_per_8_bytes", maxRatio)
 	c.Extra("max_allocated_bytes_in_a_case", maxAlloc)
